@@ -37,6 +37,7 @@
 #include <pthread.h>
 #include <stdarg.h>
 #include <dlfcn.h>
+#include <semaphore.h>
 #include "common/lp.h"
 
 /* ---------------------------------------------------------------- clock */
@@ -159,12 +160,14 @@ static void take_snap (struct MHD_Connection *mc, struct snapst *s)
 /* second thread: resumes as soon as a callback announces a suspend */
 static pthread_t resumer; static int resumer_run;
 static volatile int want_resume[MAXC];
+static sem_t resumer_sem;
 static void *resumer_main (void *cls)
 {
   (void) cls;
   while (resumer_run)
   {
     int c, any = 0;
+    sem_wait (&resumer_sem);
     for (c = 0; c < MAXC; c++)
       if (want_resume[c])
       {
@@ -174,7 +177,7 @@ static void *resumer_main (void *cls)
         UNLOCK ();
         any = 1;
       }
-    if (!any) sched_yield ();
+    (void) any;
   }
   return NULL;
 }
@@ -191,7 +194,7 @@ static int do_suspend (struct MHD_Connection *mc, int c, int r, const char *wher
     return 0;
   }
   if (stopping) return 0;
-  if ('t' == a.kind) want_resume[c] = 1;    /* race: the other thread may win */
+  if ('t' == a.kind) { want_resume[c] = 1; sem_post (&resumer_sem); }   /* race: the other thread may win */
   LOCK ();
   if ('p' == a.kind) { printf ("resume c=%d pre\n", c); MHD_resume_connection (mc); }
   MHD_suspend_connection (mc);
@@ -435,7 +438,8 @@ static void one_round (void)
       { conns[c].resume_in = -1; LOCK (); printf ("resume c=%d tmr\n", c); conns[c].is_susp = 0; MHD_resume_connection (conns[c].mc); UNLOCK (); }
       else conns[c].resume_in--;
     }
-  if (threaded ()) { fflush (stdout); usleep (8000); return; }
+  out ("round-begin");   /* pending resume requests are served first thing by the daemon's round */
+  if (threaded ()) { fflush (stdout); usleep (4000); return; }
   if (!strcmp (cfg.mode, "select"))
   {
     fd_set rs, ws, es; MHD_socket maxfd = 0; struct timeval tv = {0, 0};
@@ -501,7 +505,7 @@ static void stop_daemon (void)
   if (!d) return;
   resume_all_for_stop ();
   drain_clients (); MHD_stop_daemon (d); d = NULL; drain_clients ();
-  if (resumer_run) { resumer_run = 0; pthread_join (resumer, NULL); }
+  if (resumer_run) { resumer_run = 0; sem_post (&resumer_sem); pthread_join (resumer, NULL); }
 }
 
 static void reset_all (void)
@@ -546,6 +550,7 @@ int main (void)
   pthread_mutexattr_t at;
   signal (SIGPIPE, SIG_IGN);
   setvbuf (stdout, NULL, _IOFBF, 1 << 16);
+  sem_init (&resumer_sem, 0, 0);
   pthread_mutexattr_init (&at); pthread_mutexattr_settype (&at, PTHREAD_MUTEX_RECURSIVE); pthread_mutex_init (&log_mx, &at);
   MHD_set_panic_func (&on_panic, NULL);
   reset_all ();
